@@ -333,3 +333,127 @@ def c10() -> List[V]:
 
 REGISTRY = {"C01": c01, "C03": c03, "C04": c04, "C05": c05, "C06": c06, "C08": c08, "C09": c09, "C10": c10, "C12": c12,
             "C13": c13, "C14": c14, "C17": c17, "C20": c20}
+
+
+def c02() -> List[V]:
+    return [
+        V("and-right-ignores-left", S, "AND._evaluate__", "self.right._evaluate__(left_value, yield_when_false=self._yield_when_false_)",
+          "self.right._evaluate__(sources, yield_when_false=self._yield_when_false_)", rule="BIND-THREAD"),
+        V("second-operand-unbound", S, "Comparator._evaluate__", "second_operand._evaluate_as_value_(first_value)",
+          "second_operand._evaluate_as_value_(sources)", rule="BIND-THREAD"),
+        V("elseif-right-ignores-left", S, "ElseIf._evaluate__", "right_values = self.right._evaluate__(left_value, yield_when_false=self._yield_when_false_)",
+          "right_values = self.right._evaluate__(sources, yield_when_false=self._yield_when_false_)", rule="BIND-THREAD"),
+        V("descriptor-drops-sources", S, "QueryObjectDescriptor._evaluate_", "child_values = self._child_._evaluate__(sources, yield_when_false=self._yield_when_false_)",
+          "child_values = self._child_._evaluate__({}, yield_when_false=self._yield_when_false_)", rule="BIND-THREAD"),
+        V("selected-expression-unbound", S, "QueryObjectDescriptor._bind_selected_variables_", "selected_vars[0]._evaluate_as_value_(copy(binding))",
+          "selected_vars[0]._evaluate_as_value_()", rule="BIND-THREAD"),
+        V("selected-expression-projected", S, "QueryObjectDescriptor._bind_selected_variables_", "            extended_binding.update(value)\n",
+          "            extended_binding[selected_vars[0]._id_] = value[selected_vars[0]._id_]\n", rule="BIND-KEEP"),
+        V("and-drops-right-binding", S, "AND._evaluate__", "                        output = copy(right_value)\n                        output.update(left_value)",
+          "                        output = copy(left_value)", rule="BIND-KEEP"),
+        V("comparator-drops-second-binding", S, "Comparator._evaluate__", "                    values.update(second_value)\n", "", rule="BIND-KEEP"),
+        V("mapping-fresh-dict", S, "DomainMapping._evaluate__", "                values = copy(child_v)", "                values = {self._child_._id_: child_v[self._child_._id_]}",
+          rule="BIND-KEEP"),
+        V("lockstep-combinations", "utils", "generate_combinations", "    for combination in combine(0):\n        yield dict(zip(keys, combination))",
+          "    for combination in zip(*iterators):\n        yield dict(zip(keys, combination))", rule="PRODUCT"),
+        V("selected-in-lockstep", S, "QueryObjectDescriptor._evaluate_", "yield from self._bind_selected_variables_(list(selected_vars), v)",
+          "for sol in lazy_iterate_dicts({var: var._evaluate_as_value_(copy(v)) for var in selected_vars}):\n                    w = copy(v)\n                    for d in sol.values():\n                        w.update(d)\n                    yield w",
+          rule="PRODUCT"),
+        V("twin-and-merge-order", S, "AND._evaluate__", "                        output = copy(right_value)\n                        output.update(left_value)",
+          "                        output = copy(left_value)\n                        output.update(right_value)", kind="twin"),
+        V("twin-binding-dict-merge", S, "ForAll._evaluate__", "ctx = {**sources, **var_val}", "ctx = copy(sources)\n            ctx.update(var_val)", kind="twin"),
+    ]
+
+
+def c16() -> List[V]:
+    return [
+        V("flatten-dedup", S, "Flatten._apply_mapping_", "        for inner_v in inner_iter:\n            yield HashedValue(inner_v)",
+          "        for inner_v in set(inner_iter):\n            yield HashedValue(inner_v)", rule="FLATTEN-EACH"),
+        V("flatten-skips-falsy", S, "Flatten._apply_mapping_", "        for inner_v in inner_iter:\n            yield HashedValue(inner_v)",
+          "        for inner_v in inner_iter:\n            if inner_v:\n                yield HashedValue(inner_v)", rule="FLATTEN-EACH"),
+        V("flatten-first-only", S, "Flatten._apply_mapping_", "            yield HashedValue(inner_v)", "            yield HashedValue(inner_v)\n            break",
+          rule="FLATTEN-EACH"),
+        V("scalar-not-wrapped", S, "Flatten._apply_mapping_", "            inner_iter = [inner]", "            inner_iter = []", rule="FLATTEN-EACH"),
+        V("mapping-fresh-dict", S, "DomainMapping._evaluate__", "                values = copy(child_v)", "                values = {self._child_._id_: child_v[self._child_._id_]}",
+          rule="BIND-KEEP"),
+        V("selected-expression-projected", S, "QueryObjectDescriptor._bind_selected_variables_", "            extended_binding.update(value)\n",
+          "            extended_binding[selected_vars[0]._id_] = value[selected_vars[0]._id_]\n", rule="BIND-KEEP"),
+        V("twin-flatten-list-copy", S, "Flatten._apply_mapping_", "            inner_iter = [inner]", "            inner_iter = (inner,)", kind="twin"),
+    ]
+
+
+def c07() -> List[V]:
+    return [
+        V("product-drains", "utils", "generate_combinations", "    for combination in combine(0):", "    for combination in itertools.product(*iterators):",
+          rule="LAZY-TAINT"),
+        V("entry-materialises", S, "An.evaluate", "        results = self._evaluate__()\n        try:", "        results = iter(list(self._evaluate__()))\n        try:",
+          rule="LAZY-TAINT"),
+        V("type-filter-materialises", "predicate", "extract_selected_variable_and_expression",
+          "domain.domain = filter(lambda v: isinstance(v, symbolic_cls), domain.domain)",
+          "domain.domain = list(filter(lambda v: isinstance(v, symbolic_cls), domain.domain))", rule="LAZY-TAINT"),
+        V("and-sorts-left", S, "AND._evaluate__", "            left_values = self.left._evaluate__(sources, yield_when_false=self._yield_when_false_)",
+          "            left_values = sorted(self.left._evaluate__(sources, yield_when_false=self._yield_when_false_), key=len)", rule="LAZY-TAINT"),
+        V("domain-wrapped-eagerly", "hashed_data", "HashedIterable.set_iterable",
+          "self.iterable = (HashedValue(v) if not isinstance(v, HashedValue) else v for v in iterable)",
+          "self.iterable = [HashedValue(v) if not isinstance(v, HashedValue) else v for v in iterable]", rule="MEMO-ON-PULL"),
+        V("pulled-element-not-stored", "hashed_data", "HashedIterable.__iter__", "            self.values[v.id_] = v\n", "", rule="MEMO-ON-PULL"),
+        V("mapping-collects-children", S, "DomainMapping._evaluate__", "        for child_v in child_val:", "        for child_v in [c for c in child_val]:",
+          rule="LAZY-TAINT"),
+        V("let-peeks-domain", "entity", "let", "        if domain is None:\n            var = type_()", "        if domain is None or not list(domain):\n            var = type_()",
+          rule="GEN-ENTRY"),
+        V("evaluate-not-lazy", S, "An.evaluate", "                yield result\n", "                collected.append(result)\n", rule="GEN-ENTRY"),
+        V("variable-len-domain", S, "Variable._update_domain_", "        if domain:\n            new_domain = None", "        if domain and len(list(domain)) >= 0:\n            new_domain = None",
+          rule="GEN-ENTRY"),
+        V("twin-filter-genexp", "predicate", "extract_selected_variable_and_expression",
+          "domain.domain = filter(lambda v: isinstance(v, symbolic_cls), domain.domain)",
+          "domain.domain = (v for v in domain.domain if isinstance(v, symbolic_cls))", kind="twin"),
+        V("twin-yield-from-loop", S, "Variable.__iter__", "        for v in self._domain_:\n            yield {self._id_: HashedValue(v)}",
+          "        yield from ({self._id_: HashedValue(v)} for v in self._domain_)", kind="twin"),
+    ]
+
+
+def c11() -> List[V]:
+    return [
+        V("args-ignore-binding", S, "Variable._generate_combinations_for_child_vars_values_", "v._evaluate_as_value_(sources)", "v._evaluate_as_value_()",
+          rule="INFER-THREAD"),
+        V("construct-once-outside-loop", S, "Variable._bind_unbound_kwargs_and_yield_results_",
+          "            instance = self._type_(**{k: hv.value for k, hv in bound_kwargs.items()})\n            yield from",
+          "            if not merged_kwargs:\n                continue\n            instance = self._type_(**{k: hv.value for k, hv in bound_kwargs.items()})\n            yield from",
+          rule="INFER-ONE-PER-BINDING"),
+        V("inferred-served-from-registry", S, "Variable._yield_from_cache_or_instantiate_new_values_", "        if not self._is_inferred_ and self._is_indexed_:",
+          "        if self._is_indexed_:", rule="INFER-ONE-PER-BINDING"),
+        V("fields-copied", S, "Variable._instantiate_new_values_and_yield_results_", "instance = self._type_(**{k: hv.value for k, hv in bound_kwargs.items()})",
+          "instance = self._type_(**{k: copy(hv.value) for k, hv in bound_kwargs.items()})", rule="ID-KEEP"),
+        V("fields-get-wrappers", S, "Variable._instantiate_new_values_and_yield_results_", "instance = self._type_(**{k: hv.value for k, hv in bound_kwargs.items()})",
+          "instance = self._type_(**{k: hv for k, hv in bound_kwargs.items()})", rule="ID-KEEP"),
+        V("constructed-twice", S, "Variable._instantiate_new_values_and_yield_results_", "            instance = self._type_(**{k: hv.value for k, hv in bound_kwargs.items()})\n",
+          "            instance = self._type_(**{k: hv.value for k, hv in bound_kwargs.items()})\n            instance = self._type_(**{k: hv.value for k, hv in bound_kwargs.items()})\n",
+          rule="INFER-ONE-PER-BINDING"),
+    ]
+
+
+def c18() -> List[V]:
+    return [v for v in c01() if v.rule == "OPDEN" or (v.kind == "twin" and "truth" not in v.name)]
+
+
+def c19() -> List[V]:
+    return [
+        V("comparator-operand-as-condition", S, "Comparator._evaluate__", "first_values = first_operand._evaluate_as_value_(sources)",
+          "first_values = first_operand._evaluate__(sources)", rule="VALUE-TRUTH"),
+        V("selected-as-condition", S, "Entity._evaluate__", "self.selected_variable._evaluate_as_value_(sol)", "self.selected_variable._evaluate__(sol)",
+          rule="VALUE-TRUTH"),
+        V("constructor-arg-as-condition", S, "Variable._generate_combinations_for_child_vars_values_", "v._evaluate_as_value_(sources)", "v._evaluate__(sources)",
+          rule="VALUE-TRUTH"),
+        V("mapping-chain-as-condition", S, "DomainMapping._evaluate__", "child_val = self._child_._evaluate_as_value_(sources)",
+          "child_val = self._child_._evaluate__(sources, yield_when_false=self._yield_when_false_)", rule="VALUE-TRUTH"),
+        V("mapping-flag-off", S, "DomainMapping", "    _falsy_value_is_false_: ClassVar[bool] = True\n", "", rule="VALUE-TRUTH"),
+        V("everything-value-typed", S, "SymbolicExpression", "    _falsy_value_is_false_: ClassVar[bool] = False", "    _falsy_value_is_false_: ClassVar[bool] = True",
+          rule="VALUE-TRUTH"),
+        V("operand-forced-true", S, "Comparator._evaluate__", "second_values = second_operand._evaluate_as_value_(first_value)",
+          "second_values = second_operand._evaluate__(first_value, yield_when_false=True)", rule="VALUE-TRUTH"),
+        V("conclusion-value-as-condition", "conclusion", "Add._evaluate__", "self.value._evaluate_as_value_(sources)", "self.value._evaluate__(sources)",
+          rule="VALUE-TRUTH"),
+    ]
+
+
+REGISTRY.update({"C02": c02, "C07": c07, "C11": c11, "C16": c16, "C18": c18, "C19": c19})
